@@ -1,6 +1,8 @@
 package PVM
 
 import (
+	"encoding/binary"
+
 	"github.com/New-JAMneration/JAM-Protocol/internal/service_account"
 	"github.com/New-JAMneration/JAM-Protocol/internal/types"
 )
@@ -382,22 +384,16 @@ func invoke(input OmegaInput) (output OmegaOutput) {
 	// first read data from memory
 	data := input.VM.Memory.Read(o, offset)
 
-	decoder := types.NewDecoder()
-	// decode gas
-	err := decoder.Decode(data[:8], &g)
-	if err != nil {
-		pvmLogger.Errorf("host-call function \"invoke\" decode gas error : %v", err)
-	}
-	// decode registers
+	// E_8(g) ‖ E_8(w_0) … E_8(w_12): fixed-width little-endian
+	g = binary.LittleEndian.Uint64(data[:8])
 	for i := uint64(1); i < offset/8; i++ { // start after gas used(8)
-		err = decoder.Decode(data[8*i:8*(i+1)], &w[i-1])
-		if err != nil {
-			pvmLogger.Errorf("host-call function \"invoke\" decode register:%d error : %v", i-1, err)
-		}
+		w[i-1] = binary.LittleEndian.Uint64(data[8*i : 8*(i+1)])
 	}
-	// psi preprocess
-	tmpProgram := Program{
-		InstructionData: input.Addition.IntegratedPVMMap[n].ProgramCode,
+	// psi preprocess: m[n]_p is the program *blob* (validated by machine()); deblob it to get the
+	// instruction data, the bitmask and the jump table of the inner program
+	tmpProgram, deblobExit := DeBlobProgramCode(input.Addition.IntegratedPVMMap[n].ProgramCode)
+	if deblobExit != ExitContinue {
+		tmpProgram = Program{}
 	}
 	tempMemory := input.Addition.IntegratedPVMMap[n].Memory
 	// wrap m[n]_p (program),  w (registers),  m[n]_u (memory),   g (gas) into NewHost
@@ -409,13 +405,10 @@ func invoke(input OmegaInput) (output OmegaOutput) {
 	c, pcPrime = tempHost.Interpreter.SingleStepInvoke(input.Addition.IntegratedPVMMap[n].PC)
 
 	// mu* = mu
-	encoder := types.NewEncoder()
 	data = types.ByteSequence(make([]byte, offset))
-	encoded, _ := encoder.Encode(&tempHost.Interpreter.Gas) // encode g'
-	copy(data, encoded)
+	binary.LittleEndian.PutUint64(data[:8], uint64(tempHost.Interpreter.Gas)) // encode g'
 	for i := uint64(1); i < offset/8; i++ {
-		encoded, _ := encoder.Encode(&tempHost.Interpreter.Registers[i-1])
-		copy(data[8*i:8*(i+1)], encoded)
+		binary.LittleEndian.PutUint64(data[8*i:8*(i+1)], tempHost.Interpreter.Registers[i-1])
 	}
 	// write data into memory (mu)
 	input.VM.Memory.Write(o, data)
@@ -424,7 +417,7 @@ func invoke(input OmegaInput) (output OmegaOutput) {
 	tmp := input.Addition.IntegratedPVMMap[n]
 	tmp.Memory = *tempHost.Interpreter.Memory
 	if c.GetReasonType() == HOST_CALL {
-		tmp.PC = pcPrime + 1 + ProgramCounter(skip(int(pcPrime), input.Addition.Program.Bitmasks))
+		tmp.PC = pcPrime + 1 + ProgramCounter(skip(int(pcPrime), tmpProgram.Bitmasks))
 	} else {
 		tmp.PC = pcPrime
 	}
